@@ -4,11 +4,11 @@ import os
 HERE = os.path.dirname(os.path.abspath(__file__))
 VARIANTS = ["IgnoreUnknownIdx", "UnlinkOnDeregister", "ResumeClearsBackoff", "IncBeforeSend", "NoClearOnLimit", "ResumeSkipsAcceptAll",
             "BackoffNeverReregisters", "RoundRobinStuck", "ConnErrIsFatal", "WakeSkipsAcceptAll", "PauseKeepsRegistered",
-            "RejoinPausedNoAvail", "ResetSeparate", "JumpToFirstAvailable"]
+            "RejoinPausedNoAvail", "ResetSeparate", "JumpToFirstAvailable", "ReportOnlyIfBitSet"]
 DESIGN = {"IgnoreUnknownIdx": "TRUE", "ResumeClearsBackoff": "TRUE"}
 INVS = ("TypeOK C01_Conservation C01_ServedOnce C01_NoSilentDrop C02_Bound C02_NoForcedSend C03_NoLostWake "
         "C04_RoundRobin C04_BitsTrueWhenCalm C05_ListenerLive C05_UdsReachable C05_ConnErrNoDelay C05_TimerHasTimeout C08_NoPanic "
-        "C08_NoSpin C08_NoGhostBit C08_NoDupHandles C08_FaultReportedOnce")
+        "C08_NoSpin C08_NoGhostBit C08_NoDupHandles C08_FaultReportedOnce C08_NoLostIndex")
 
 
 def cfg(name, W, Limit, L, Uds, conns, faults=0, cmds=0, errs=0, bare=0, wake=None, flip=None, edges=False,
@@ -86,7 +86,8 @@ cfg("NEG_ConnErrIsFatal", 1, 1, 1, [], 2, errs=1, flip=["ConnErrIsFatal"])
 cfg("NEG_WakeSkipsAcceptAll", 1, 1, 1, [], 2, flip=["WakeSkipsAcceptAll"], invs="C03_NoLostWake")
 cfg("NEG_PauseKeepsRegistered", 1, 1, 1, [], 2, cmds=2, flip=["PauseKeepsRegistered"])
 cfg("NEG_ResumeClearsBackoff", 1, 1, 1, [], 2, cmds=3, errs=1, flip=["ResumeClearsBackoff"], invs="", props="Steps")
-cfg("NEG_RejoinPausedNoAvail", 1, 1, 1, [], 2, cmds=2, faults=1, flip=["RejoinPausedNoAvail", "ResetSeparate", "JumpToFirstAvailable"], invs="C03_NoLostWake C04_BitsTrueWhenCalm")
+cfg("NEG_RejoinPausedNoAvail", 1, 1, 1, [], 2, cmds=2, faults=1, flip=["RejoinPausedNoAvail", "ResetSeparate", "JumpToFirstAvailable", "ReportOnlyIfBitSet"], invs="C03_NoLostWake C04_BitsTrueWhenCalm")
 cfg("NEG_ResetSeparate", 2, 1, 1, [], 4, flip=["ResetSeparate"], invs="C03_NoLostWake C04_BitsTrueWhenCalm")
 cfg("NEG_JumpToFirstAvailable", 3, 1, 1, [], 5, flip=["JumpToFirstAvailable"], invs="")
+cfg("NEG_ReportOnlyIfBitSet", 2, 1, 1, [], 4, faults=2, flip=["ReportOnlyIfBitSet"], invs="C08_NoLostIndex")
 print("configs written")
